@@ -137,8 +137,8 @@ fn cold_side_job(op: Op2, form: Form, cold_port: usize, script_len: usize, len: 
 
 pub fn plan(tier: Tier) -> Plan {
   let (len, slen, hlen) = match tier {
-    Tier::Quick => (5, 3, 3),
-    Tier::Thorough => (7, 3, 5),
+    Tier::Quick => (6, 3, 4),
+    Tier::Thorough => (7, 4, 5),
   };
   let mut jobs = vec![];
   for form in [Form::Local, Form::Threads] {
